@@ -105,11 +105,11 @@ def _work_backoff_runs(task) -> core.Part:
 
 # ---- manager -----------------------------------------------------------------------------------------------------
 
-def pacing_errors(script, thr, slp, maxd, horizon=None) -> list[str]:
+def pacing_errors(script, thr, slp, maxd, horizon=None, epoch=None) -> list[str]:
     if horizon is None:
         horizon = 600.0 + 61.0 * len(script)
     sc = vloop.Scenario([(o[0], (o[2] if len(o) > 2 else 0), o[1]) for o in script] + [("S", 0, None)], threshold=thr, sleep_sec=slp, max_delay=maxd,
-                        horizon=horizon + sum((o[2] if len(o) > 2 else 0) for o in script)).run()
+                        horizon=horizon + sum((o[2] if len(o) > 2 else 0) for o in script), epoch=epoch).run()
     log = [(e[0], e[1], e[2]) for e in sc.log]
     errs = list(dict.fromkeys(sc.problems))
     n = 0  # consecutive failures
@@ -152,7 +152,53 @@ def pacing_errors(script, thr, slp, maxd, horizon=None) -> list[str]:
 def replay(case: dict) -> list[str]:
     if case.get("kind") == "backoff":
         return backoff_errors(case["seq"])
+    if case.get("epoch"):
+        import datetime as _dt
+
+        core.set_ambient(False, bool(case.get("dst_zone")))
+        try:
+            return pacing_errors([tuple(x) for x in case["script"]], case["thr"], case["slp"], case["maxd"], epoch=_dt.datetime.fromisoformat(case["epoch"]))
+        finally:
+            core.set_ambient(False, False)
     return pacing_errors([tuple(x) for x in case["script"]], case["thr"], case["slp"], case["maxd"])
+
+
+def calendar_epochs():
+    """UTC readings of the wall clock a few seconds before the moments at which a clock or calendar computation can
+    jump: the hours around the European and US daylight-saving switches (both directions), midnight, new year, the end
+    of February in a leap year, and the 2038 limit of 32-bit time stamps."""
+    import datetime as _dt
+
+    out = []
+    for y, m, d in ((2026, 3, 29), (2026, 10, 25), (2026, 3, 8), (2026, 11, 1), (2024, 2, 29), (2025, 12, 31), (2038, 1, 19), (2026, 6, 15)):
+        for h in range(0, 24) if (m, d) in ((3, 29), (10, 25)) else (0, 1, 2, 3, 6, 7, 8, 9, 23):
+            out.append(_dt.datetime(y, m, d, h, 0, 0) - _dt.timedelta(seconds=11))
+    out.append(_dt.datetime(2038, 1, 19, 3, 14, 7) - _dt.timedelta(seconds=11))
+    return out
+
+
+def _work_mgr_calendar(task) -> core.Part:
+    """The loss breaker compares wall-clock readings: run loss scripts with the wall clock placed just before every
+    calendar discontinuity, in a UTC process and in a process whose zone has daylight saving time."""
+    epochs, scripts = task
+    p = core.Part()
+    for zone in (False, True):
+        core.set_ambient(core.AMBIENT["lowprec"], zone)
+        for ep in epochs:
+            for script in scripts:
+                for thr, slp, maxd in SETTINGS[:2]:
+                    e = pacing_errors(script, thr, slp, maxd, epoch=ep)
+                    p.add("executions")
+                    p.add("nontrivial")
+                    p.add("attempts", len(script) + 1)
+                    p.out("paced_ok" if not e else "pacing_violation")
+                    for m in e:
+                        p.viol("pacing", f"pacing:cal:{ep.isoformat()}:{zone}:{script}:{thr}:{m[:30]}", f"wall clock {ep.isoformat()}Z at start, {'DST zone' if zone else 'UTC'} process, script {list(script)} threshold={thr} sleep={slp}: {m}",
+                               {"script": [list(x) for x in script], "thr": thr, "slp": slp, "maxd": maxd, "epoch": ep.isoformat(), "dst_zone": zone}, size=len(script))
+        if p.full("pacing"):
+            p.capped = True
+            break
+    return p
 
 
 def _work_mgr(task) -> core.Part:
@@ -191,11 +237,17 @@ def main(run: core.Run) -> int:
     batches = [(scripts[i::64], SETTINGS) for i in range(64)]
     run.log(f"{len(scripts)} scripts x {len(SETTINGS)} settings")
     run.merge(par.pmap(_work_mgr, batches, seed=run.seed))
+    eps = calendar_epochs()
+    cal_scripts = [s_ for n in (2, 3) for s_ in itertools.product((("S", 1), ("S", 3), ("S", 10), ("F", None)), repeat=n) if sum(1 for o in s_ if o[0] == "S") >= 2]
+    cal_scripts += [(("S", 9), ("S", 1), ("S", 1)), (("S", 10), ("S", 2)), (("S", 12), ("S", 1))]
+    run.log(f"calendar positions: {len(eps)} wall-clock epochs x 2 process zones x {len(cal_scripts)} scripts x 2 settings")
+    run.merge(par.pmap(_work_mgr_calendar, [(eps[i::32], cal_scripts) for i in range(32)], seed=run.seed))
     tot = run.total
     tot.sample({"backoff_sequence": "ffrfff", "expected_delay": "min(4, max_delay) for every max_delay in 1..3600"})
     tot.sample({"script": [["F", None], ["F", None], ["S", 1], ["S", 1]], "setting": {"threshold": 5, "sleep": 5, "max_delay": 60},
                 "expected": "attempt 2 at +1 s, attempt 3 at +2 s, attempt 4 right after the first loss, attempt 5 >= 5 s after the second loss"})
-    run.bounds = {"backoff_depth": 14, "backoff_run_lengths": "f^k, f^k r, f^k r f^j, f^k r f^5 r f^j for k = 1..200", "max_delay": "1..3600 (complete)", "manager_script_length": L, "slow_attempts": "all scripts of <= 4 attempts over failures after 0/0.4/1.5/10/61 s and a success after 2.5 s", "settings": [list(s) for s in SETTINGS]}
+    run.bounds = {"backoff_depth": 14, "backoff_run_lengths": "f^k, f^k r, f^k r f^j, f^k r f^5 r f^j for k = 1..200", "max_delay": "1..3600 (complete)", "manager_script_length": L, "slow_attempts": "all scripts of <= 4 attempts over failures after 0/0.4/1.5/10/61 s and a success after 2.5 s", "settings": [list(s) for s in SETTINGS],
+                  "calendar": f"{len(eps)} wall-clock start readings (11 s before every hour of the EU switch days, selected hours of US switch days, leap day, new year, 2038) x process zone UTC / CET-CEST x {len(cal_scripts)} loss scripts"}
     run.assumptions = ["han.meter_connection.datetime is substituted by a shim reading the virtual clock (if that name disappears, loss-timing clauses are skipped)",
                        "scheduling slack: 1e-6 virtual seconds"]
     ex = tot.c.get("executions", 0) + tot.c.get("sequences", 0)
